@@ -39,9 +39,19 @@ func genC18(r *Rand, sc *Scenario, tier string) {
 			sc.Docs = append(sc.Docs, deepDoc(r.Intn(3), []int{2600, 3000, 3400}[r.Intn(3)], "1"))
 			sc.Tasks = append(sc.Tasks, []Op{{Kind: "NestedDescent", Doc: t}})
 		}
-		n := r.Range(100, 400)
-		for i := 0; i < n; i++ {
-			sc.Sched = append(sc.Sched, 1+(r.Intn(64)<<8|r.Range(20, 255)))
+		if r.Chance(1, 2) {
+			n := r.Range(100, 400)
+			for i := 0; i < n; i++ {
+				sc.Sched = append(sc.Sched, 1+(r.Intn(64)<<8|r.Range(20, 255)))
+			}
+		} else {
+			// every task but the last is stopped at 35-50 % of its own run - near its deepest point - and
+			// stays parked there; then the last one descends while all the others are deep
+			for t := 0; t < ntasks-1; t++ {
+				sc.Sched = append(sc.Sched, t, r.Range(35, 50), t)
+			}
+			sc.Cfg["single-preemption"] = 1
+			sc.Cfg["x-is-percent"] = 1
 		}
 		sc.Cfg["deep-recursion-in-every-task"] = 1
 		return
